@@ -655,7 +655,7 @@ Definition expected_exp (x : sctx) (op : kop) (pre : option docview) : option N 
   | KUpdate e (USet _ ne) | KUpdate e (UAppend _ ne) | KUpdate e (UDelete ne) => Some (ab (oexp ne e))
   | KUpdate _ (UExpOnly e) => Some (ab e)
   | KWriteSubDoc _ _ _ | KSubdocInsert _ _ _ => Some 0
-  | KWriteUpdateWithXattrs (WUResult u) _ => Some (ab (oexp (wu_expiry u) 0))
+  | KWriteUpdateWithXattrs (WUResult u) _ => Some (if wu_preserve u && negb (wu_tombstone u) then prev else ab (oexp (wu_expiry u) 0))
   | _ => None
   end.
 
